@@ -330,11 +330,48 @@ def lint_c13(ctx):
                re.search(r'=\s*(BDD|Self)::Choice\(', code):
                 if not (path.endswith('bdd.rs') and fn in allowed_alloc):
                     problems.append('%s:%d: a Choice node is allocated in fn %s' % (os.path.relpath(path, ctx.repo), ln, fn))
+    # persistent mutable state: the theorem's ADT has exactly one piece of state, the unique table.  Any further
+    # interior-mutable field or global (a memo table, a cache keyed by hash, a call counter) can make results
+    # depend on history in ways no finite run is guaranteed to reach (e.g. only after 65536 calls or on a hash collision).
+    allowed_state = {('bdd.rs', 'nodes'), ('set.rs', 'bdd'), ('parser.rs', 'definitions')}
+    for path in sorted(glob.glob(os.path.join(ctx.repo, 'src', '*.rs'))):
+        base = os.path.basename(path)
+        in_cfg_verif = 0
+        for ln, line in enumerate(open(path), 1):
+            code = line.split('//')[0]
+            if 'cfg(rsbdd_verif)' in code:
+                in_cfg_verif = 40       # the hook module is compiled only for verification
+            elif in_cfg_verif:
+                in_cfg_verif -= 1
+            m = re.match(r'\s*(?:pub(?:\([a-z]+\))?\s+)?(\w+)\s*:\s*(.*(?:RefCell|Cell|Mutex|RwLock|OnceCell|OnceLock|Atomic\w+)\s*<?.*)', code)
+            if m and not in_cfg_verif and '(' not in code.split(':')[0] and 'fn ' not in code:
+                if (base, m.group(1)) not in allowed_state:
+                    problems.append('%s:%d: interior-mutable state `%s` besides the unique table' % (os.path.relpath(path, ctx.repo), ln, m.group(1)))
+            if re.search(r'\bstatic\s+mut\b|thread_local!|lazy_static!', code) and not in_cfg_verif:
+                if not (base == 'parser.rs' and 'lazy_static!' in code):
+                    problems.append('%s:%d: global mutable state' % (os.path.relpath(path, ctx.repo), ln))
     ctx.notes.append('C13(b) source lint: %d finding(s)' % len(problems))
     if problems:
         ctx.violation({'kind': 'lint', 'key': 'lint:c13', 'broken_correspondence':
                        'C13(b) source lint: an operation bypasses the unique-table ADT (the theorem C13_histories covers mk_choice/mk_const/find call sequences only)',
                        'detail': problems[:20]}, no_input=True)
+
+
+def lint_c14(ctx):
+    """C14: the exported identity of a test node must be its allocation address.  C14_nodes_once speaks about structures;
+    C13 makes structure and address coincide; any other id (a hash, a counter per visit) can declare one node twice or
+    merge two nodes, on inputs no finite run is guaranteed to reach (hash collisions)."""
+    import re
+    path = os.path.join(ctx.repo, 'src', 'bdd_io.rs')
+    src = open(path).read()
+    m = re.search(r'fn node_id\b.*?\n    }\n', src, re.S)
+    body = '\n'.join(l.split('//')[0] for l in (m.group(0) if m else '').split('\n'))
+    ok = bool(m) and ('{:p}' in body or 'as_ptr' in body or 'into_raw' in body) and 'get_hash' not in body
+    ctx.notes.append('C14 source lint (node ids are allocation addresses): %s' % ('ok' if ok else 'FAILED'))
+    if not ok:
+        ctx.violation({'kind': 'lint', 'key': 'lint:c14', 'broken_correspondence':
+                       'C14 source lint: BDDGraph::node_id no longer derives a test node\'s id from its allocation address; the model identifies nodes with structures, which C13 ties to addresses only',
+                       'detail': body[:1500]}, no_input=True)
 
 
 def run_property(ctx):
@@ -353,6 +390,8 @@ def run_property(ctx):
         ] + spec.get('assumptions', [])
         if spec.get('lint') == 'c13':
             lint_c13(ctx)
+        if spec.get('lint') == 'c14':
+            lint_c14(ctx)
         for s in spec['suites']:
             run_suite(ctx, s)
     except build.BuildError as e:
